@@ -4,7 +4,7 @@ Bounded-exhaustive enumeration of generated programs: every sequence of <= N
 statements over an occurrence-pattern alphabet (the same name several times
 separated by one operator character, in CALL argument lists, after ';', across a
 continuation line, in another letter case, inside comments and character literals,
-as a substring of longer identifiers) x 4 scope shapes (plain local; the same
+as a substring of longer identifiers) x 5 scope shapes (plain local; the same
 spelling declared in an inner scope; the same spelling in another module used by
 another program; the same spelling as a type component) x names (i, ii-like, with
 '_', with '$').  The builder records which entity every occurrence is bound to.
@@ -26,8 +26,9 @@ from ..fbuild import D, U, Workspace
 LEVEL = "exploration"
 
 NAMES = ["i", "xv", "x_1", "a$b"]
-NEW_NAMES = ["zz", "q1", "a_much_longer_name", "k"]
-PATTERNS = ["spaced", "tight", "square", "ifstmt", "callargs", "semicolon", "continuation", "uppercase", "comment", "literal", "substring", "funcarg"]
+NEW_NAMES = ["zz", "q1", "a_much_longer_name", "w"]
+PATTERNS = ["spaced", "tight", "square", "ifstmt", "callargs", "semicolon", "continuation", "uppercase", "comment", "literal", "substring", "funcarg",
+            "dotted"]
 
 
 def emit(f, ind, pat, n, e):
@@ -56,6 +57,9 @@ def emit(f, ind, pat, n, e):
         f.add(ind, "text = '", n, "' // \"", n, " and ''", n, "''\"")
     elif pat == "substring":
         f.add(ind, n, "long = ", n, "long + pre", n, " + ", U(n, e))
+    elif pat == "dotted":
+        # operands glued to dotted operators
+        f.add(ind, "if (", U(n, e), ".gt.other.or.other.eq.", U(n, e), ".and..not.(", U(n, e), ".lt.0)) ", U(n, e), " = 0")
     elif pat == "funcarg":
         f.add(ind, "other = twice(", U(n, e), ") + twice(", U(n, e), "+", U(n, e), ")")
 
@@ -147,6 +151,41 @@ def build(shape, n, pats):
         f.add("    h%", U(n, "COMP"), "=h%", U(n, "COMP"), "*h%", U(n, "COMP"))
         f.add("  end subroutine work")
         f.add("end module comp_mod")
+    elif shape == "procedure":
+        # the entity is a module procedure: declared once, called in several statement shapes, imported by name elsewhere
+        f.add("module proc_mod")
+        f.add("  implicit none")
+        f.add("  integer :: counter")
+        f.add("contains")
+        f.add("  subroutine ", D(n, "PROC"), "(k)")
+        f.add("    integer :: k")
+        f.add("    k = k + 1")
+        f.add("  end subroutine ", U(n, "PROC"))
+        f.add("  subroutine work()")
+        f.add("    integer :: other")
+        f.add("    character(len=40) :: text")
+        f.add("    other = 0")
+        for p in pats:
+            if p in ("comment", "literal"):
+                emit(f, "    ", p, n, "PROC")
+            elif p in ("semicolon", "ifstmt"):
+                f.add("    if (other > 0) call ", U(n, "PROC"), "(other); call ", U(n, "PROC"), "(counter)")
+            elif p in ("continuation",):
+                f.add("    call &")
+                f.add("      ", U(n, "PROC"), "(other)")
+            elif p == "uppercase":
+                f.add("    CALL ", U(n.upper(), "PROC"), "(other)")
+            else:
+                f.add("    call ", U(n, "PROC"), "(other)")
+        f.add("  end subroutine work")
+        f.add("end module proc_mod")
+        g = ws.file("caller.f90")
+        g.add("subroutine caller()")
+        g.add("  use proc_mod, only: ", U(n, "PROC"))
+        g.add("  integer :: m")
+        g.add("  m = 1")
+        g.add("  call ", U(n, "PROC"), "(m)")
+        g.add("end subroutine caller")
     ws.file("helpers.f90").lines = HELPERS.rstrip("\n").split("\n")
     return ws
 
@@ -254,10 +293,12 @@ def run_case(job, acc: Acc):
 
 
 def jobs(maxlen):
-    shapes = ["local", "shadow", "othermodule", "component"]
+    shapes = ["local", "shadow", "othermodule", "component", "procedure"]
     k = 0
     for shape in shapes:
         for n in NAMES:
+            if shape == "procedure" and "$" in n:
+                continue  # '$' in procedure names is outside what the statement patterns of fortls accept (variables only)
             for ln in range(1, maxlen + 1):
                 for pats in itertools.product(PATTERNS, repeat=ln):
                     if len(set(pats)) != len(pats):
@@ -268,7 +309,7 @@ def jobs(maxlen):
 
 def main(ctx):
     maxlen = 2 if ctx.quick else 3
-    ctx.rule = (f"every sequence of <= {maxlen} distinct statement patterns from a 12-pattern alphabet x 4 scope shapes x 4 names "
+    ctx.rule = (f"every sequence of <= {maxlen} distinct statement patterns from a 13-pattern alphabet x 5 scope shapes x 4 names "
                 "(i, xv, x_1, a$b); for every entity and every occurrence: references, documentHighlight; rename from the first and "
                 "last occurrence with one of 4 new names, edits applied, fresh server, definition at every occurrence. "
                 "Non-trivial: all; distinct by (shape, name, patterns).")
